@@ -18,7 +18,7 @@ from concurrent.futures import ProcessPoolExecutor
 from typing import Any, Callable, Dict, List, Optional, Tuple
 
 from ..core.classworld import ClassWorld
-from ..core.fde import IndexOutOfRange, Obj, Raised, Tag, Undecided
+from ..core.fde import IndexOutOfRange, KInt, Obj, Raised, Tag, Undecided, kind_of
 from ..core.findings import Report
 from ..core.loader import AnalysisError, Repo
 from .graphnative import FILES, GraphWorld
@@ -149,8 +149,34 @@ class SolverWorld(GraphWorld):
         self.snap: List[Tuple[Obj, List[bool]]] = []
         real_ctor = g["Solver"]
 
+        self.shape_events: List[str] = []
+
+        def check_shape(what: str, rows: Any, cols: Any) -> None:
+            if kind_of(rows) == "C" or kind_of(cols) == "R":
+                self.shape_events.append(f"{what} is created with (rows, columns) = ({'width' if kind_of(rows) == 'C' else 'height'}-derived, "
+                                         f"{'height' if kind_of(cols) == 'R' else 'width'}-derived)")
+
+        real_frames = {nm: g[nm] for nm in ("BoolGridFrame", "BoolInnerGridFrame")}
+        for nm, ctor in real_frames.items():
+            def mk(nm=nm, ctor=ctor):
+                def f(solver: Any, height: Any, width: Any, *a: Any, **k: Any) -> Obj:
+                    check_shape(nm, height, width)
+                    return ctor(solver, height, width, *a, **k)
+                return f
+            g[nm] = mk()
+            g["graph." + nm] = g[nm]
+
         def make_solver() -> Obj:
             s = real_ctor()
+            for meth in ("bool_array", "int_array"):
+                real = self.cw.method(s, meth)
+
+                def arr(shape: Any, *a: Any, real=real, meth=meth) -> Obj:
+                    if isinstance(shape, tuple) and len(shape) == 2:
+                        check_shape(f"solver.{meth}(({shape[0]}, {shape[1]}))", shape[0], shape[1])
+                    return real(shape, *a)
+
+                s.attrs[meth] = arr
 
             def solve(backend: Any = None) -> Any:
                 self.snap.append((s, list(s.attrs["is_answer_key"])))
@@ -210,6 +236,10 @@ def _job(args) -> Tuple[str, List[Tuple[str, str, str]], int]:
                 w = SolverWorld(repo, name)
                 if fn not in w.cw.genv:
                     raise AnalysisError(f"anchor vanished: {file}::{fn}")
+                params = [a.arg for a in repo.mod(file).func(fn).args.args]
+                if params[:2] == ["height", "width"] and len(args_) >= 2:
+                    # the board's dimensions carry a row/column qualifier through the evaluation (kind analysis)
+                    args_ = (KInt(args_[0], "R"), KInt(args_[1], "C")) + tuple(args_[2:])
                 label = f"{h}x{wd} board"
                 try:
                     w.cw.ev.steps = 0
@@ -223,6 +253,11 @@ def _job(args) -> Tuple[str, List[Tuple[str, str, str]], int]:
                 for text, comp, val, line in w.cw.ev.events[:3]:
                     out.append(("IDX-1", f"{text}", f"{fn} on a {label}: `{text}` is evaluated with the computed index `{comp}` = {val}: "
                                                      f"a negative index silently addresses the opposite edge (line {line})"))
+                for text, comp, k, axis, line in w.cw.ev.kind_events[:3]:
+                    out.append(("DK", f"{text}", f"{fn} on a {label}: `{text}` uses the {'width' if k == 'C' else 'height'}-derived value `{comp}` on the "
+                                                  f"{'row' if axis == 'R' else 'column'} axis (line {line}): on a non-square board it addresses or bounds the wrong cells"))
+                for msg in w.shape_events[:2]:
+                    out.append(("DK", msg.split(" is created")[0], f"{fn} on a {label}: {msg}"))
                 # ---- AKR ------------------------------------------------------------------------
                 if not isinstance(res, tuple) or len(res) < 2:
                     out.append(("AKR", f"{fn} result shape", f"{fn} returns {res!r}, expected (flag, answer containers...)"))
@@ -270,6 +305,7 @@ def run(repo: Repo, rep: Report) -> None:
     rep.rule("AKR", "returned flag = this solver's solve(); every returned container = variables registered as answer keys before solve()")
     rep.rule("IDX-1", "no computed index / slice bound is negative at any subscript while posting constraints")
     rep.rule("IDX-2", "posting the constraints raises nothing on non-square boards in both orientations with clues on every edge")
+    rep.rule("DK", "row/column kind analysis: no value derived from `width` indexes, bounds or sizes the row axis of a 2-D array / comprehension-built table / frame, and vice versa (sizes that mix both are never reported)")
     names = []
     for m in repo.iter("cspuz/puzzle/"):
         base = m.rel.split("/")[-1][:-3]
@@ -294,7 +330,7 @@ def run(repo: Repo, rep: Report) -> None:
                 continue
             seen.add((rule, cons))
             rep.finding(rule, file, fn, cons, msg)
-        for rule in ("AKR", "IDX-1", "IDX-2"):
+        for rule in ("AKR", "IDX-1", "IDX-2", "DK"):
             if not any(r == rule for r, _, _ in items):
                 rep.ok(rule, f"{fn}: {n} non-square instances", points=n)
     rep.floor("AKR", 26)
